@@ -64,6 +64,7 @@ type Options struct {
 	StrictRespType    string          `json:"strict_response_type,omitempty"`
 	StrictRespJSON    json.RawMessage `json:"strict_response_json,omitempty"`
 	StrictHandlerErr  bool            `json:"strict_handler_error,omitempty"`
+	StrictErrWithResp bool            `json:"strict_handler_error_with_response,omitempty"` // the handler returns a response object of the operation AND an error
 	StrictForeign     bool            `json:"strict_foreign,omitempty"` // strict middleware 0 lets the handler run and hands back a value that is no response object of the operation
 	Entry             string          `json:"entry,omitempty"`               // which generated entry point mounts the server: "" (with options), plain, from_mux, from_mux_base
 	MwWrites          int             `json:"mw_writes,omitempty"`           // k > 0: per-operation middleware k-1 sends the response header itself and then passes on (does not short-circuit)
